@@ -115,6 +115,12 @@ def t_wire(x):
     return "d %d %d %d 0 0 0 0" % (x.year, x.month, x.day)
 
 
+def t_show(x):
+    """canonical form of a RESULT: the wire form, plus a marker if fold is set (the model has no fold bit,
+    so a result with fold=1 shows up as a correspondence mismatch)"""
+    return t_wire(x) + (" fold=1" if getattr(x, "fold", 0) else "")
+
+
 def parse_t(tokens):
     """8 tokens -> date / datetime"""
     k = tokens[0]
@@ -293,5 +299,5 @@ def g_temporal(rng, kinds=("d", "n", "a")):
         return datetime.date(y, m, d)
     hh, mm, ss, us = g_time(rng)
     tz = None if k == "n" else rng.choice(zones())
-    fold = 1 if rng.random() < 0.05 else 0
+    fold = 1 if rng.random() < 0.15 else 0
     return datetime.datetime(y, m, d, hh, mm, ss, us, tzinfo=tz, fold=fold)
